@@ -151,11 +151,23 @@ def cascade_profile():
 _base_subchecks = subchecks
 
 
+def overfull_profile():
+    w = {"capacity": 1.0, "reneging": 1.0, "jockeying": 1.0, "priorities": 0.6, "prio_preempt": 0.5, "prio_reroute": 0.5, "batching": 0.4,
+         "discipline": 0.2, "routing_objects": 1.0, "self_loops": 0.4, "zero_service": 0.2, "cc_waiting": 0.1}
+    return S.Profile(list(w), weights=w, required=("capacity", "reneging", "jockeying", "routing_objects"), numeric="grid", max_nodes=3, max_classes=3,
+                     plans=("max_time",), horizon=(8.0, 20.0), budget=700, caps=(0, 0, 1), load="heavy", max_c=2)
+
+
 def subchecks(tier):   # noqa: F811
     return _base_subchecks(tier) + [
         system_subcheck("cascade", cascade_profile(), lambda spec: [Blocking(spec)], lambda a, spec, res: a.get("max_cascade", 0) >= 3,
                         classes=lambda a, spec, res: ["cascade>=%d" % k for k in (3, 4, 5, 6) if a.get("max_cascade", 0) >= k], obs=True,
                         n={"quick": 4800, "thorough": 30000}, rule="1-2 nodes, up to 6 servers, no waiting room, self-loops: long unblocking cascades; same monitor"),
+        system_subcheck("overfull", overfull_profile(), lambda spec: [Blocking(spec)],
+                        lambda a, spec, res: a.get("max_overfull", 0) >= 1 and a.get("unblocks", 0) >= 1,
+                        classes=lambda a, spec, res: ["overfull>=%d" % k for k in (1, 2, 3) if a.get("max_overfull", 0) >= k] + classes(a, spec, res), obs=True,
+                        n={"quick": 4800, "thorough": 30000},
+                        rule="jockeying renegers and re-routed pre-empted customers ignore capacities: nodes above their capacity with customers blocked towards them; same monitor"),
         SubCheck("refdes", ref_execute, strategy=ref_case(), n={"quick": 4800, "thorough": 40000}, kind="differential", is_spec=False,
                  rule=("independent reference simulator (vf/refdes.py: fixed servers, FIFO/LIFO, non-pre-emptive priorities, finite capacities with "
                        "rejection and Type I blocking, scripted routes, id-keyed service times) predicts every service and rejection record of "
